@@ -74,3 +74,68 @@ Example C02_nonvacuous :
   fl [DEdit (Some [120; 10]%N) 0 0; DBump; DSaveOwn 0 1; DUndo] = true /\
   snd (ec_quit false [run_dops (ebuf_open f) []; run_dops (ebuf_open f) [DEdit None 0 1]]) = false.
 Proof. vm_compute. repeat split. Qed.
+
+(* ------------------------------------------------------------------------------------------ *)
+(* C02 AT THE EX INTERFACE (appended by the ex group; proofs in ExSim.v / ExUndo.v / ExDirty.v).
+   The ex model of ExDefs.v is tied to DirtyDefs.v by ExDirty.Rlz (= the relation ExUndo.Rl of the C04 appendix plus
+   equal useq_zero and useq_last).  A script is a list of ExDirty.xcmd: XLine ln = ANY command line of the ex model
+   (ex_command: `|` lists, g with command lists, s, a/i/c, d, pu, r, !, @, u, and `w` = whole buffer to its own path, also
+   in the middle of a line), XWriteOwn b e (b,ew to the own path: lbuf_saved for the whole buffer, lbuf_unsaved
+   otherwise), XWriteOther, XReload c (e!: lbuf_rd over the whole buffer, lbuf_saved), XQuit (q without !: bufs_modified,
+   xquit only when it reports clean); every one ends with ex_command's closing lbuf_modified.  The ghost xdisk is what the
+   file holds (initially the file's lines; after w / a whole XWriteOwn the buffer's lines; after a partial one the
+   written lines; after e! the lines read).  One buffer: the ex model has a single one; the walk of ec_quit over
+   several buffers is C02_quit_sound above, whose hypothesis `reachable` is what C02_ex_history provides per buffer. *)
+From NV Require ExDefs ExSpec ExSim ExUndo ExDirty.
+
+(* every script maps onto a DirtyDefs history (run_dops from ebuf_open on the same file) with the same ghost disk *)
+Theorem C02_ex_history : forall data rvalid rfind filter readfile curpath fuel input wa cs,
+  let x := ExDirty.xrun rvalid rfind filter readfile curpath fuel (ExDirty.xinit data input wa) cs in
+  exists dops, ExDirty.Rlz (ExDefs.lb (ExDirty.xs x)) (lb (run_dops (ebuf_open data) dops)) /\
+               disk (run_dops (ebuf_open data) dops) = ExDirty.xdisk x.
+Proof. exact ExDirty.ex_script_history. Qed.
+Print Assumptions C02_ex_history.
+
+(* after ANY script: when the model's dirty test (lbuf_modified: what q, e, b and ! ask) reports clean, the buffer's
+   text, line by line with its newline, is exactly the ghost disk content *)
+Theorem C02_ex_clean_sound : forall data rvalid rfind filter readfile curpath fuel input wa cs,
+  let x := ExDirty.xrun rvalid rfind filter readfile curpath fuel (ExDirty.xinit data input wa) cs in
+  snd (ExDefs.lbuf_modified (ExDefs.lb (ExDirty.xs x))) = false ->
+  ExUndo.utext (ExDefs.lb (ExDirty.xs x)) = ExDirty.xdisk x.
+Proof. exact ExDirty.ex_clean_sound. Qed.
+Print Assumptions C02_ex_clean_sound.
+
+(* q without ! after ANY script sets xquit only if text = ghost disk ... *)
+Theorem C02_ex_quit_sound : forall data rvalid rfind filter readfile curpath fuel input wa cs,
+  let x := ExDirty.xrun rvalid rfind filter readfile curpath fuel (ExDirty.xinit data input wa) cs in
+  ExDefs.xquit (ExDirty.xs x) = false ->
+  ExDefs.xquit (ExDirty.xs (ExDirty.xstep rvalid rfind filter readfile curpath fuel x ExDirty.XQuit)) = true ->
+  ExUndo.utext (ExDefs.lb (ExDirty.xs x)) = ExDirty.xdisk x.
+Proof. exact ExDirty.ex_quit_sound. Qed.
+Print Assumptions C02_ex_quit_sound.
+
+(* ... and when the test reports modified it is refused: xquit, text, undo history, undo position and file unchanged *)
+Theorem C02_ex_quit_refused : forall rvalid rfind filter readfile curpath fuel (x : ExDirty.xst),
+  snd (ExDefs.lbuf_modified (ExDefs.lb (ExDirty.xs x))) = true ->
+  let x' := ExDirty.xstep rvalid rfind filter readfile curpath fuel x ExDirty.XQuit in
+  ExDefs.xquit (ExDirty.xs x') = ExDefs.xquit (ExDirty.xs x) /\ ExSpec.texts (ExDirty.xs x') = ExSpec.texts (ExDirty.xs x) /\
+  ExDefs.hist (ExDefs.lb (ExDirty.xs x')) = ExDefs.hist (ExDefs.lb (ExDirty.xs x)) /\
+  ExDefs.hist_u (ExDefs.lb (ExDirty.xs x')) = ExDefs.hist_u (ExDefs.lb (ExDirty.xs x)) /\
+  ExDirty.xdisk x' = ExDirty.xdisk x.
+Proof. exact ExDirty.ex_quit_refused. Qed.
+Print Assumptions C02_ex_quit_refused.
+
+(* not vacuous, on the file a b: q goes through at once; after `1d` it is refused; after `1d`, `w` it goes through;
+   after `1d`, `u` it goes through (back at the saved text); after `1d`, a whole write, `u` it is refused;
+   after `1d|w|1d` (one line) it is refused; after `1d` and a write elsewhere it is refused; after `1d`, e! it goes through *)
+Example C02_ex_nonvacuous :
+  let run := ExDirty.xrun (fun _ => true) (fun _ _ _ => None) (fun _ _ => None) (fun _ => None) [] 10 in
+  let x0 := ExDirty.xinit [97;10;98;10]%N [] true in
+  let q cs := ExDefs.xquit (ExDirty.xs (run x0 (cs ++ [ExDirty.XQuit]))) in
+  q [] = true /\ q [ExDirty.XLine [49;100]%N] = false /\ q [ExDirty.XLine [49;100]%N; ExDirty.XLine [119]%N] = true /\
+  q [ExDirty.XLine [49;100]%N; ExDirty.XLine [117]%N] = true /\
+  q [ExDirty.XLine [49;100]%N; ExDirty.XWriteOwn 0 1; ExDirty.XLine [117]%N] = false /\
+  q [ExDirty.XLine [49;100;124;119;124;49;100]%N] = false /\
+  q [ExDirty.XLine [49;100]%N; ExDirty.XWriteOther] = false /\
+  q [ExDirty.XLine [49;100]%N; ExDirty.XReload [122;10]%N] = true.
+Proof. vm_compute. repeat split. Qed.
